@@ -10,16 +10,18 @@ RW = [dict(name='SCOPE-pool-member', pat='event_pool_member :: value', rep='even
       dict(name='fsm-argument', pat='get_fsm_argument ( )', rep='self', min=0),
       dict(name='TCALL-transition', pat='Transition :: execute (', rep='Transition_execute ( Transition ,', min=0),
       dict(name='completion-event-object', pat='using completion_event = Transition :: transition_event ; completion_event event { } ;', rep='event_t event = { 0 , 0 , 0 , 0 } ;', min=0, max=1)]
+GUARDS = {'event_processing_reset': 'event_processing_reset_dtor'}
+GUARD_DTOR = Part(SB, ['struct event_processing_reset'], '~ event_processing_reset ( )', optional=True,
+                  xform=back_xform([], refparams=(), rewrites=[dict(name='REF-member', pat='flag', rep='* flag', min=0)]))
+GUARD_FS = 'static void event_processing_reset_dtor(_Bool* flag){@1}\n'
 def xf(throwers):
     return back_xform(['mp_any_of', 'is_flag_active', 'has_no_exception_thrown'], refparams=(), members=['m_event_processing'],
                       methods=['is_flag_active', 'is_end_interrupt_event', 'do_process_event', 'process_event_pool', 'exception_caught'],
-                      enums=ENUMS, drop=DROP2, rewrites=RW, throwers=throwers, try_=True)
+                      enums=ENUMS, drop=DROP2, rewrites=RW, throwers=throwers, try_=True, guards=GUARDS)
 P = ['C04', 'C05', 'C10', 'C11', 'C12', 'C13']
 UNITS.append(Unit('backmp11.process_event_internal', P, 'backmp11',
-    Part(SB, [], 'process_result process_event_internal ( Event const & event , process_info info )'),
-    'process_result process_event_internal(fsm_t* self, event_t event, process_info info)', 'evloop_mp11.spec.h',
-    xform=xf(['do_process_event', 'process_event_pool']), fire={'TRY': (1, 1), 'PP': (1, 1)}, replay=['queue', 'exc', 'block', 'defer']))
+    [Part(SB, [], 'process_result process_event_internal ( Event const & event , process_info info )', xform=xf(['do_process_event', 'process_event_pool'])), GUARD_DTOR],
+    'process_result process_event_internal(fsm_t* self, event_t event, process_info info)', 'evloop_mp11.spec.h', compose='@0', file_scope=GUARD_FS, fire={'TRY': (1, 1), 'PP': (1, 1)}, replay=['queue', 'exc', 'block', 'defer']))
 UNITS.append(Unit('backmp11.process_completion_transition', ['C10', 'C11', 'C12', 'C04', 'C13'], 'backmp11',
-    Part(SB, [], 'process_result process_completion_transition ( uint8_t region_id )'),
-    'process_result process_completion_transition(fsm_t* self, uint8_t region_id)', 'evloop_mp11.spec.h',
-    xform=xf(['Transition_execute']), fire={'TRY': (1, 1), 'PP': (1, 1)}, replay=['queue', 'exc', 'block']))
+    [Part(SB, [], 'process_result process_completion_transition ( uint8_t region_id )', xform=xf(['Transition_execute'])), GUARD_DTOR],
+    'process_result process_completion_transition(fsm_t* self, uint8_t region_id)', 'evloop_mp11.spec.h', compose='@0', file_scope=GUARD_FS, fire={'TRY': (1, 1), 'PP': (1, 1)}, replay=['queue', 'exc', 'block']))
